@@ -34,7 +34,7 @@ def src_hash(qualname):
         obj = importlib.import_module(modname)
         for part in attr.split('.'):
             if part:
-                obj = getattr(obj, part)
+                obj = inspect.getattr_static(obj, part)
         if isinstance(obj, (staticmethod, classmethod)):
             obj = obj.__func__
         obj = getattr(obj, 'function', obj)  # descriptorint/descriptorstr
